@@ -44,6 +44,9 @@ Definition dispatch_file (toks : list (list N)) : option (list N * list N) :=
         let rs := parse_hex_list recs in
         let r := m_osched (parse_nat k) (flag hdr) (parse_hex delim) (parse_nat w) (parse_nats sched) rs in
         Some (r, r)
+      else if is "msched" op then   (* msched mode w m W sched recs *)
+        let r := m_msched (is "s2m" k) (parse_nat hdr) (parse_nat delim) (parse_nat w) (parse_nats sched) (parse_hex_list recs) in
+        Some (r, r)
       else if is "ctr" op then   (* ctr k threads memf acgt container recs *)
         let rs := parse_hex_list recs in
         Some (m_ctr (parse_nat k) (flag w) (N.max 1 (parse_dec hdr)) [rs], s_ctr (parse_nat k) (flag w) rs)
